@@ -65,11 +65,13 @@ def r1_acks(report, repo):
           if vals == ['CLSE', 'OKAY', 'WRTE']:
             return ('not', 'legal') if isinstance(op, ast.NotIn) else 'legal'
         c = core.const_str(r)
-        if c in ('WRTE', 'CLSE', 'OKAY') and isinstance(op, ast.Eq):
-          return 'is_' + c.lower()
+        if c in ('WRTE', 'CLSE', 'OKAY') and isinstance(op, (ast.Eq,
+                                                             ast.NotEq)):
+          k = 'is_' + c.lower()
+          return k if isinstance(op, ast.Eq) else ('not', k)
       if {dotted(l), dotted(r)} == {msg + '.arg1', st + '.local_id'} and \
-          isinstance(op, ast.Eq):
-        return 'mine'
+          isinstance(op, (ast.Eq, ast.NotEq)):
+        return 'mine' if isinstance(op, ast.Eq) else ('not', 'mine')
     d = dotted(expr)
     if d == st + '.remote_id':
       return 'have_remote'
